@@ -7,5 +7,5 @@ S=/tmp/seedscn/$seed
 rm -rf "$S"; mkdir -p "$S/scratch"
 git -C /repo worktree add -q --detach "$S/repo" HEAD || exit 2
 trap 'git -C /repo worktree remove --force "$S/repo" 2>/dev/null; rm -rf "$S"' EXIT
-git -C "$S/repo" apply /verif/seeded/$seed/patch.diff || { echo "patch does not apply"; exit 2; }
-VERIF_REPO="$S/repo" VERIF_SCRATCH="$S/scratch" python3 /verif/tools/dbgscn.py "$eng" "$pref" "$@"
+git -C "$S/repo" apply "$(dirname "$(readlink -f "$0")")/../seeded/$seed/patch.diff" || { echo "patch does not apply"; exit 2; }
+VERIF_REPO="$S/repo" VERIF_SCRATCH="$S/scratch" python3 "$(dirname "$(readlink -f "$0")")/dbgscn.py" "$eng" "$pref" "$@"
